@@ -72,6 +72,13 @@ def impl_matcher(case):
         kwargs = {"tag_prefixes": case["prefixes"], "value_separator": case["sep"]}
     m = ActiveTagMatcher(prov, **kwargs)
     out = {}
+    # somebody (print_active_tags in a hook, say) asked the provider for categories with a default of its own before the
+    # matcher runs: a category nobody knows stays unknown
+    for cat, dflt in case.get("prequery", []):
+        try:
+            prov.get(cat, dflt)
+        except Exception:       # noqa
+            pass
     try:
         out["exclude"] = bool(m.should_exclude_with(case["tags"]))
         out["again"] = bool(m.should_exclude_with(case["tags"]))          # cached providers must not change the answer
@@ -175,7 +182,11 @@ def suites(tier, seed):
             s = rnd.choice(specs)
             if s is not None:
                 values[c] = list(s)
-        cases.append({"tags": list(tags), "values": values, "provider": rnd.choice(["dict", "atvp", "composite"])})
+        case = {"tags": list(tags), "values": values, "provider": rnd.choice(["dict", "atvp", "composite"])}
+        if rnd.random() < 0.3:
+            case["prequery"] = [[rnd.choice(["os", "browser", "browser.ver", "nosuch", "x"]), rnd.choice([None, "", 0, "zz"])]
+                                for _ in range(rnd.randint(1, 3))]
+        cases.append(case)
     small = [t for n in (1, 2) for t in itertools.combinations(universe, n)]
     if thorough:
         small += list(itertools.combinations(universe[::2], 3))
